@@ -258,3 +258,33 @@ package stgutg
 //@ assigns global free5gclib/nas/security/snow3g.lfsr free5gclib/nas/security/snow3g.fsm
 //@ ensures ngap: vc.GhostLen("ngap.built") == 1 && trace.Is(vc.GhostBytes("ngap.built", 0), trace.NGSetupRequest, int64(bitlength), 0, 0)
 //@ ensures nonas: vc.GhostLen("nas.built") == 0 && vc.GhostLen("nas.protect") == 0
+
+// ---- the procedures as seen by main(): they return (or end the process); the UE may have changed ----
+//@ func ManageNGSetup
+//@ behavior returns
+//@ trusted
+//@ func RegisterUE
+//@ behavior returns
+//@ trusted
+//@ assigns ue
+//@ func EstablishPDU
+//@ behavior returns
+//@ trusted
+//@ assigns ue
+//@ func ServiceRequest
+//@ behavior returns
+//@ trusted
+//@ assigns ue
+//@ func ReleasePDU
+//@ behavior returns
+//@ trusted
+//@ assigns ue
+//@ func DeregisterUE
+//@ behavior returns
+//@ trusted
+//@ assigns ue
+
+// Min is the smaller of its arguments.
+//@ func Min
+//@ prop C02
+//@ ensures min: result <= x && result <= y && (result == x || result == y)
